@@ -135,7 +135,11 @@ func runC09(r *Run, p *Prog) {
 			// slices and indexes of the input are O1's business - in the functions the cursor analysis covers. Anywhere
 			// else (the entry point building an error message from input[lineStart:position], a post-pass) nothing
 			// bounds the cursor, and the site is judged here like any other slice
-			if f := in.Parent(); f == nil || !(readerFns[f] || readerFns[origFn(f)]) {
+			f := in.Parent()
+			if ch := inlinedFrom(in); len(ch) > 0 {
+				f = ch[len(ch)-1] // the function the instruction was written in
+			}
+			if f == nil || !(readerFns[f] || readerFns[origFn(f)]) {
 				return false
 			}
 			switch x := in.(type) {
